@@ -99,7 +99,7 @@ def handleC12 (op : String) (args : List Sexp) : Option Ans :=
   | "oracle-dir-rt", [m] => do
     let m ← mappingsFrom m
     if !shape2 m then none
-    pure (if !writableB m || m.classes.any (fun e => (fileNameOf e.1 e.2).contains 46) then .ok (tag "out-of-domain") else
+    pure (if !writableB m then .ok (tag "out-of-domain") else
       match dirRoundTrip m with
       | none => .ok (list [tag "fail", tag "io_err"])
       | some r =>
@@ -108,7 +108,7 @@ def handleC12 (op : String) (args : List Sexp) : Option Ans :=
   | "oracle-perm", [m, m'] => do
     let m ← mappingsFrom m; let m' ← mappingsFrom m'
     if !shape2 m || !shape2 m' then none
-    pure (if !(nodupB (m.classes.map Prod.fst) && nodupB (rootFileNames m.classes) && sortAll m.classes == sortAll m'.classes)
+    pure (if !(writableB m && writableB m' && sortAll m.classes == sortAll m'.classes)
       then .ok (tag "out-of-domain")
       else if writeAll m == writeAll m' && files m == files m' then .ok (tag "pass") else .ok (list [tag "fail", tag "differs"]))
   | "oracle-placement", [m] => do
@@ -116,7 +116,7 @@ def handleC12 (op : String) (args : List Sexp) : Option Ans :=
     if !shape2 m then none
     pure (if !writableB m then .ok (tag "out-of-domain") else
       match files m with
-      | none => .ok (tag "out-of-domain")
+      | none => .ok (list [tag "fail", tag "io_err"])
       | some fs =>
         match placementCheck m fs with
         | none => .ok (tag "pass")
